@@ -119,7 +119,8 @@ def read_gate(perm: int, enc: bool, auth: bool, s0: int, s1: int, op: str, targe
     # refused: nothing may depend on the secret; operations addressing the attribute directly get the error
     if r0[0] != r1[0]:
         return False
-    if op in ('read', 'blob0', 'blob1', 'bytype_exact', 'multi_first', 'multivar_first'):
+    # (a handle list is refused as a whole wherever the protected handle stands; a range read may stop before it)
+    if op in ('read', 'blob0', 'blob1', 'bytype_exact', 'multi_first', 'multivar_first', 'multi_last', 'multivar_last'):
         return r0[0][0] == 0x01 and r0[0][4] in _ERR
     return True
 
